@@ -5,7 +5,8 @@ check("C03", "model_checking",
       "cases that cannot hold kept as counter-examples that must still fail; real meshes of 1..4 hops and a diamond over links that lose, "
       "duplicate, delay and re-order data frames, with endpoint-adjacent and transit cuts of the active path, carry seeded bidirectional patterned "
       "transfers (1 B..256 KiB writes) directly, through the control service's connect bridge and through a TCP proxy pair; every "
-      "Write/Read/Close/EOF is validated by TLC against StreamTrace.tla.",
+      "Write/Read/Close/EOF is validated by TLC against StreamTrace.tla; a serial scenario cancels the dial context right after DialContext "
+      "returned, with the dial-time watcher held at a gate (a stream must survive the end of its dial context).",
       "Trusted: quic-go as the reliability layer; the path is never dead longer than the idle timeout. Through full-close endpoints the property is "
       "demanded for orderly closes only (shown necessary by Bridge.tla). Origin-side re-route error is an open finding.",
       "TLA+ spec + TLC exhaustive small scope; trace validation of real transfers under seeded datagram faults and re-routing (B2)",
